@@ -35,17 +35,27 @@ pub type DateTimePattern_string = String;
 
 // ---- assumed: the standard-output handles.  `view()` = payload bytes written through the handle so far;
 // write_all appends on Ok, flush does not change the view; colour escapes are counted apart from payload
+/// colour model: every payload byte is recorded together with the id of the colour that was active when it was
+/// written; `cur()` is the active colour.  A plain handle has one colour (0) for ever.
+pub open spec fn paint(s: Seq<u8>, c: int) -> Seq<(u8, int)> { Seq::new(s.len(), |i: int| (s[i], c)) }
 pub trait WriteStd {
     spec fn view(&self) -> Seq<u8>;
+    spec fn cview(&self) -> Seq<(u8, int)>;
+    spec fn cur(&self) -> int;
     fn write_all(&mut self, buf: &[u8]) -> (r: Result<()>)
-        ensures r is Ok ==> final(self).view() == old(self).view() + buf@;
+        ensures
+            final(self).cur() == old(self).cur(),
+            r is Ok ==> final(self).view() == old(self).view() + buf@,
+            r is Ok ==> final(self).cview() == old(self).cview() + paint(buf@, old(self).cur());
     fn flush(&mut self) -> (r: Result<()>)
-        ensures final(self).view() == old(self).view();
+        ensures final(self).view() == old(self).view(), final(self).cview() == old(self).cview(), final(self).cur() == old(self).cur();
 }
 #[verifier::external_body]
 pub struct StdoutLock { _p: u8 }
 impl WriteStd for StdoutLock {
     uninterp spec fn view(&self) -> Seq<u8>;
+    uninterp spec fn cview(&self) -> Seq<(u8, int)>;
+    uninterp spec fn cur(&self) -> int;
     #[verifier::external_body]
     fn write_all(&mut self, buf: &[u8]) -> (r: Result<()>) { unimplemented!() }
     #[verifier::external_body]
@@ -59,6 +69,19 @@ impl Stdout {
 }
 #[verifier::external_body]
 pub struct ColorSpec { _p: u8 }
+pub uninterp spec fn cid(c: ColorSpec) -> int;
+impl Clone for ColorSpec {
+    #[verifier::external_body]
+    fn clone(&self) -> (r: Self) ensures cid(r) == cid(*self) { unimplemented!() }
+}
+impl PartialEq for ColorSpec {
+    #[verifier::external_body]
+    fn eq(&self, other: &Self) -> (r: bool) { unimplemented!() }
+}
+impl PartialEqSpecImpl for ColorSpec {
+    open spec fn obeys_eq_spec() -> bool { true }
+    open spec fn eq_spec(&self, other: &Self) -> bool { cid(*self) == cid(*other) }
+}
 #[verifier::external_body]
 pub struct Color { _p: u8 }
 #[verifier::external_body]
@@ -67,6 +90,25 @@ pub struct ColorChoice { _p: u8 }
 pub struct FixedOffset { _p: u8 }
 #[verifier::external_body]
 pub struct StandardStream { _p: u8 }
+impl WriteStd for StandardStream {
+    uninterp spec fn view(&self) -> Seq<u8>;
+    uninterp spec fn cview(&self) -> Seq<(u8, int)>;
+    uninterp spec fn cur(&self) -> int;
+    #[verifier::external_body]
+    fn write_all(&mut self, buf: &[u8]) -> (r: Result<()>) { unimplemented!() }
+    #[verifier::external_body]
+    fn flush(&mut self) -> (r: Result<()>) { unimplemented!() }
+}
+impl StandardStream {
+    // assumed (termcolor): set_color writes only an escape sequence -- no payload byte -- and makes `spec` the active colour
+    #[verifier::external_body]
+    pub fn set_color(&mut self, spec: &ColorSpec) -> (r: Result<()>)
+        ensures final(self).view() == old(self).view(), final(self).cview() == old(self).cview(),
+            r is Ok ==> final(self).cur() == cid(*spec),
+    { unimplemented!() }
+}
+#[verifier::external_body]
+pub fn black_box<T>(x: &T) { }
 
 // ---- assumed: a line part is a byte slice of a block; real struct shapes of Line / Sysline cut from /repo
 #[verifier::external_body]
@@ -183,9 +225,12 @@ impl FixedStruct {
     ensures
         *final(flushed) <= *old(flushed) + 1, *final(flushed) >= *old(flushed),
         (*old(error_ret)) is Some ==> (*final(error_ret)) is Some,
-        // the buffer content goes out, in order, exactly once, and is counted
-        (*final(error_ret)) is None ==> final(stdout).view() == old(stdout).view() + old(buffer)@
-            && final(buffer)@.len() == 0 && *final(printed) == *old(printed) + old(buffer)@.len(),
+        final(stdout).cur() == old(stdout).cur(),
+        // the buffer content goes out, in order, exactly once, and is counted: the logical streams do not change
+        (*final(error_ret)) is None ==> final(buffer)@.len() == 0 && *final(printed) == *old(printed) + old(buffer)@.len()
+            && ls(final(stdout), final(buffer)@) == ls(old(stdout), old(buffer)@) && vs(final(stdout), final(buffer)@) == vs(old(stdout), old(buffer)@),
+//@at_entry
+    proof { reveal(ls); reveal(vs); lemma_paint_concat_auto(); }
 //@end
 
 //@macrofn path=src/printer/printers.rs name=buffer_flush_or_return may_return=1 generics="W: WriteStd"
@@ -195,8 +240,11 @@ impl FixedStruct {
         *old(printed) + old(buffer)@.len() <= usize::MAX, *old(flushed) < usize::MAX,
     ensures
         *final(flushed) <= *old(flushed) + 1, *final(flushed) >= *old(flushed),
-        r is Ok ==> final(stdout).view() == old(stdout).view() + old(buffer)@
-            && final(buffer)@.len() == 0 && *final(printed) == *old(printed) + old(buffer)@.len(),
+        final(stdout).cur() == old(stdout).cur(),
+        r is Ok ==> final(buffer)@.len() == 0 && *final(printed) == *old(printed) + old(buffer)@.len()
+            && ls(final(stdout), final(buffer)@) == ls(old(stdout), old(buffer)@) && vs(final(stdout), final(buffer)@) == vs(old(stdout), old(buffer)@),
+//@at_entry
+    proof { reveal(ls); reveal(vs); lemma_paint_concat_auto(); }
 //@end
 
 //@macrofn path=src/printer/printers.rs name=buffer_flush_nostats generics="W: WriteStd"
@@ -212,16 +260,371 @@ impl FixedStruct {
         *old(printed) + old(buffer)@.len() + slice_@.len() <= usize::MAX, *old(flushed) < usize::MAX - 2,
     ensures
         *final(flushed) <= *old(flushed) + 2, *final(flushed) >= *old(flushed),
-        // C02 / C13: the logical output stream (bytes written ++ bytes buffered) grows by exactly the slice, in order,
-        // whatever the relation of the slice length to the remaining capacity and to BUFFER_CAP;
-        // C19: `printed` counts exactly the bytes that reached the handle
-        r is Ok ==> final(stdout).view() + final(buffer)@ == old(stdout).view() + old(buffer)@ + slice_@,
-        r is Ok ==> *final(printed) - *old(printed) == final(stdout).view().len() - old(stdout).view().len(),
-        r is Ok ==> final(stdout).view().len() >= old(stdout).view().len(),
         final(buffer)@.len() <= usize::MAX,
+        final(stdout).cur() == old(stdout).cur(),
+        // C02 / C13: the logical output stream (bytes written ++ bytes buffered) grows by exactly the slice, in order,
+        // whatever the relation of the slice length to the remaining capacity and to BUFFER_CAP; the same for the
+        // coloured stream (buffered bytes go out under the colour that is active now)
+        r is Ok ==> vs(final(stdout), final(buffer)@) == vs(old(stdout), old(buffer)@) + slice_@,
+        r is Ok ==> ls(final(stdout), final(buffer)@) == ls(old(stdout), old(buffer)@) + paint(slice_@, old(stdout).cur()),
+        // C19: `printed` counts exactly the bytes that reached the handle
+        r is Ok ==> *final(printed) + final(buffer)@.len() == *old(printed) + old(buffer)@.len() + slice_@.len(),
+        r is Ok ==> *final(printed) >= *old(printed),
+//@at_entry
+    proof { reveal(ls); reveal(vs); lemma_paint_concat_auto(); }
 //@mutate "(*printed) += (*buffer).len();" ""
 //@mutate "(*buffer).extend_from_slice((slice_));" ""
 //@mutate "(*buffer).clear();" ""
+//@end
+
+/// the logical output streams: what has reached the handle ++ what is buffered (buffered bytes will go out under the
+/// colour that is active now).  Opaque: callers chain equalities, the macro-functions reveal them.
+#[verifier::opaque]
+pub open spec fn ls<W: WriteStd>(w: &W, buf: Seq<u8>) -> Seq<(u8, int)> { w.cview() + paint(buf, w.cur()) }
+#[verifier::opaque]
+pub open spec fn vs<W: WriteStd>(w: &W, buf: Seq<u8>) -> Seq<u8> { w.view() + buf }
+pub proof fn lemma_streams_empty<W: WriteStd>(w: &W, buf: Seq<u8>)
+    requires buf.len() == 0
+    ensures ls(w, buf) == w.cview(), vs(w, buf) == w.view()
+{
+    reveal(ls); reveal(vs); reveal(paint);
+    assert(paint(buf, w.cur()) =~= Seq::<(u8, int)>::empty());
+    assert(w.cview() + Seq::<(u8, int)>::empty() =~= w.cview());
+    assert(w.view() + buf =~= w.view());
+}
+pub proof fn lemma_paint_concat(a: Seq<u8>, b: Seq<u8>, c: int)
+    ensures paint(a + b, c) == paint(a, c) + paint(b, c)
+{ assert(paint(a + b, c) =~= paint(a, c) + paint(b, c)); }
+pub proof fn lemma_paint_concat_auto()
+    ensures forall|a: Seq<u8>, b: Seq<u8>, c: int| #[trigger] paint(a + b, c) == paint(a, c) + paint(b, c),
+            forall|c: int| #[trigger] paint(Seq::<u8>::empty(), c) == Seq::<(u8, int)>::empty(),
+{
+    assert forall|a: Seq<u8>, b: Seq<u8>, c: int| #[trigger] paint(a + b, c) == paint(a, c) + paint(b, c) by { lemma_paint_concat(a, b, c); }
+    assert forall|c: int| #[trigger] paint(Seq::<u8>::empty(), c) == Seq::<(u8, int)>::empty() by { assert(paint(Seq::<u8>::empty(), c) =~= Seq::<(u8, int)>::empty()); }
+}
+
+
+// ---- colour: setcolor_or_return! flushes what is buffered under the OLD colour, then switches
+//@macrofn path=src/printer/printers.rs name=setcolor_or_return may_return=1
+//@params stdout:mut:StandardStream buffer:mut:Vec<u8> color_spec:ref:ColorSpec color_spec_last:mut:ColorSpec printed:mut:usize flushed:mut:usize
+//@spec
+    requires
+        *old(printed) + old(buffer)@.len() <= usize::MAX, *old(flushed) < usize::MAX - 2,
+        // printer invariant: color_spec_last mirrors the colour that is active on the stream
+        cid(*old(color_spec_last)) == old(stdout).cur(),
+    ensures
+        *final(flushed) <= *old(flushed) + 2, *final(flushed) >= *old(flushed),
+        // what is buffered goes out under the OLD colour, then the colour changes: the logical streams do not change
+        r is Ok ==> final(buffer)@.len() == 0 && *final(printed) == *old(printed) + old(buffer)@.len(),
+        r is Ok ==> ls(final(stdout), final(buffer)@) == ls(old(stdout), old(buffer)@) && vs(final(stdout), final(buffer)@) == vs(old(stdout), old(buffer)@),
+        r is Ok ==> final(stdout).cur() == cid(*color_spec) && cid(*final(color_spec_last)) == final(stdout).cur(),
+//@at_entry
+    proof { reveal(ls); reveal(vs); lemma_paint_concat_auto(); }
+//@mutate "(*color_spec_last) = (*color_spec).clone();" ""
+//@end
+
+// ---- colour: print_color_line! writes the parts of a line under the active colour and flushes
+//@macrofn path=src/printer/printers.rs name=print_color_line may_return=1 generics="W: WriteStd"
+//@params stdout_color:mut:W buffer:mut:Vec<u8> linep:val:&LineP printed:mut:usize flushed:mut:usize
+//@desugar_for 1 it
+//@spec
+    requires
+        *old(printed) + old(buffer)@.len() + parts_bytes(linep.lineparts@).len() <= usize::MAX,
+        *old(flushed) + linep.lineparts@.len() * 2 + 2 < usize::MAX,
+    ensures
+        *final(flushed) <= *old(flushed) + linep.lineparts@.len() * 2 + 1, *final(flushed) >= *old(flushed),
+        final(stdout_color).cur() == old(stdout_color).cur(),
+        r is Ok ==> final(buffer)@.len() == 0,
+        r is Ok ==> final(stdout_color).cview() == old(stdout_color).cview() + paint(old(buffer)@ + parts_bytes(linep.lineparts@), old(stdout_color).cur()),
+        r is Ok ==> final(stdout_color).view() == old(stdout_color).view() + old(buffer)@ + parts_bytes(linep.lineparts@),
+        r is Ok ==> *final(printed) == *old(printed) + old(buffer)@.len() + parts_bytes(linep.lineparts@).len(),
+//@at_entry
+    proof { reveal(vs); reveal(ls); lemma_paint_concat_auto(); }
+    let ghost v0 = stdout_color.view();
+    let ghost cv0 = stdout_color.cview();
+    let ghost b0 = buffer@;
+    let ghost c0 = stdout_color.cur();
+    let ghost p0 = *printed;
+    let ghost f0 = *flushed;
+//@loop 1
+        invariant_except_break
+            vstd::std_specs::iter::IteratorSpec::decrease(&it.iter) is Some,
+        invariant
+            it.snapshot@ == it__snap0, it.wf(),
+            it.seq().len() == linep.lineparts@.len(),
+            forall|i: int| 0 <= i < linep.lineparts@.len() ==> *it.seq()[i] == linep.lineparts@[i],
+            0 <= it.index@ <= it.seq().len(),
+            p0 + b0.len() + parts_bytes(linep.lineparts@).len() <= usize::MAX, f0 + linep.lineparts@.len() * 2 + 2 < usize::MAX,
+            stdout_color.cur() == c0, c0 == old(stdout_color).cur(), f0 == *old(flushed),
+            stdout_color.view() + buffer@ == v0 + b0 + parts_bytes(linep.lineparts@.take(it.index@ as int)),
+            stdout_color.cview() + paint(buffer@, c0) == cv0 + paint(b0 + parts_bytes(linep.lineparts@.take(it.index@ as int)), c0),
+            *printed - p0 == stdout_color.view().len() - v0.len(), stdout_color.view().len() >= v0.len(),
+            f0 <= *flushed <= f0 + it.index@ * 2,
+            buffer@.len() <= usize::MAX,
+        ensures
+            it.index@ == it.seq().len(),
+        decreases vstd::std_specs::iter::IteratorSpec::decrease(&it.iter).unwrap_or(arbitrary()),
+//@after "let slice: &[u8]"
+            proof {
+                reveal(vs); reveal(ls); lemma_paint_concat_auto();
+                let k = it__old.index@ as int;
+                lemma_parts_prefix(linep.lineparts@, k);
+                assert(slice@ == linep.lineparts@[k].bytes());
+                assert((stdout_color.view() + buffer@).len() == stdout_color.view().len() + buffer@.len());
+                assert((v0 + b0 + parts_bytes(linep.lineparts@.take(k))).len() == v0.len() + b0.len() + parts_bytes(linep.lineparts@.take(k)).len());
+                assert(parts_bytes(linep.lineparts@.take(k + 1)).len() == parts_bytes(linep.lineparts@.take(k)).len() + slice@.len());
+                assert(b0 + parts_bytes(linep.lineparts@.take(k + 1)) =~= b0 + parts_bytes(linep.lineparts@.take(k)) + slice@);
+                assert(cv0 + paint(b0 + parts_bytes(linep.lineparts@.take(k)), c0) + paint(slice@, c0) =~= cv0 + paint(b0 + parts_bytes(linep.lineparts@.take(k + 1)), c0));
+            }
+//@after "match buffer_write_or_return__fn("
+            proof {
+                reveal(ls); reveal(vs); lemma_paint_concat_auto();
+                let k = it__old.index@ as int;
+                let pk = parts_bytes(linep.lineparts@.take(k));
+                let pk1 = parts_bytes(linep.lineparts@.take(k + 1));
+                assert(pk1 == pk + slice@);
+                assert(stdout_color.cview() + paint(buffer@, c0) == cv0 + paint(b0 + pk, c0) + paint(slice@, c0));
+                assert(b0 + pk1 =~= (b0 + pk) + slice@);
+                assert(paint((b0 + pk) + slice@, c0) == paint(b0 + pk, c0) + paint(slice@, c0));
+                assert(cv0 + paint(b0 + pk, c0) + paint(slice@, c0) =~= cv0 + (paint(b0 + pk, c0) + paint(slice@, c0)));
+                assert((stdout_color.view() + buffer@).len() == stdout_color.view().len() + buffer@.len());
+                assert((v0 + b0 + pk1).len() == v0.len() + b0.len() + pk1.len());
+            }
+//@before "match buffer_flush_or_return__fn"
+        proof {
+            assert(linep.lineparts@.take(linep.lineparts@.len() as int) =~= linep.lineparts@);
+            assert((stdout_color.view() + buffer@).len() == stdout_color.view().len() + buffer@.len());
+        }
+//@end
+
+
+/// C13 colour: a line's bytes with the datetime range [dt_beg, dt_end) in the datetime colour and the rest in the text
+/// colour -- a function of the line alone, NOT of how block boundaries cut it into parts (C12)
+pub open spec fn hl_col(i: int, dt_beg: int, dt_end: int, c_sys: int, c_dt: int) -> int { if dt_beg <= i < dt_end { c_dt } else { c_sys } }
+#[verifier::opaque]
+pub open spec fn paint_hl(b: Seq<u8>, dt_beg: int, dt_end: int, c_sys: int, c_dt: int) -> Seq<(u8, int)> {
+    Seq::new(b.len(), |i: int| (b[i], hl_col(i, dt_beg, dt_end, c_sys, c_dt)))
+}
+pub proof fn lemma_hl_piece(cv0: Seq<(u8, int)>, v0: Seq<u8>, b: Seq<u8>, lo: int, hi: int, c: int, dt_beg: int, dt_end: int, c_sys: int, c_dt: int)
+    requires 0 <= lo <= hi <= b.len(), forall|i: int| lo <= i < hi ==> #[trigger] hl_col(i, dt_beg, dt_end, c_sys, c_dt) == c
+    ensures
+        cv0 + paint_hl(b, dt_beg, dt_end, c_sys, c_dt).take(lo) + paint(b.subrange(lo, hi), c) == cv0 + paint_hl(b, dt_beg, dt_end, c_sys, c_dt).take(hi),
+        v0 + b.take(lo) + b.subrange(lo, hi) == v0 + b.take(hi),
+{
+    reveal(paint_hl);
+    assert(cv0 + paint_hl(b, dt_beg, dt_end, c_sys, c_dt).take(lo) + paint(b.subrange(lo, hi), c) =~= cv0 + paint_hl(b, dt_beg, dt_end, c_sys, c_dt).take(hi));
+    assert(v0 + b.take(lo) + b.subrange(lo, hi) =~= v0 + b.take(hi));
+}
+pub proof fn lemma_hl_whole(cv0: Seq<(u8, int)>, v0: Seq<u8>, b: Seq<u8>, dt_beg: int, dt_end: int, c_sys: int, c_dt: int)
+    ensures
+        cv0 + paint_hl(b, dt_beg, dt_end, c_sys, c_dt).take(b.len() as int) == cv0 + paint_hl(b, dt_beg, dt_end, c_sys, c_dt),
+        cv0 + paint_hl(b, dt_beg, dt_end, c_sys, c_dt).take(0) == cv0,
+        v0 + b.take(b.len() as int) == v0 + b, v0 + b.take(0) == v0,
+{
+    reveal(paint_hl);
+    assert(paint_hl(b, dt_beg, dt_end, c_sys, c_dt).take(b.len() as int) =~= paint_hl(b, dt_beg, dt_end, c_sys, c_dt));
+    assert(b.take(b.len() as int) =~= b);
+    assert(cv0 + paint_hl(b, dt_beg, dt_end, c_sys, c_dt).take(0) =~= cv0);
+    assert(v0 + b.take(0) =~= v0);
+}
+/// the bytes of the first k parts are a prefix of the bytes of the line
+pub proof fn lemma_parts_is_prefix(s: Seq<LinePart>, k: int)
+    requires 0 <= k <= s.len()
+    ensures parts_bytes(s.take(k)).len() <= parts_bytes(s).len(), parts_bytes(s.take(k)) == parts_bytes(s).take(parts_bytes(s.take(k)).len() as int)
+    decreases s.len() - k
+{
+    if k == s.len() { assert(s.take(k) =~= s); assert(parts_bytes(s).take(parts_bytes(s).len() as int) =~= parts_bytes(s)); }
+    else {
+        lemma_parts_is_prefix(s, k + 1);
+        lemma_parts_prefix(s, k);
+        let a = parts_bytes(s.take(k)); let a1 = parts_bytes(s.take(k + 1)); let b = parts_bytes(s);
+        assert(a1 == a + s[k].bytes());
+        assert(a =~= b.take(a.len() as int)) by { assert(a1 == b.take(a1.len() as int)); assert(a =~= a1.take(a.len() as int)); }
+    }
+}
+/// part k of a line is the sub-range of the line's bytes that starts after the first k parts
+pub proof fn lemma_part_is_subrange(s: Seq<LinePart>, k: int)
+    requires 0 <= k < s.len()
+    ensures
+        parts_bytes(s.take(k)).len() + s[k].bytes().len() == parts_bytes(s.take(k + 1)).len(),
+        parts_bytes(s.take(k + 1)).len() <= parts_bytes(s).len(),
+        s[k].bytes() == parts_bytes(s).subrange(parts_bytes(s.take(k)).len() as int, parts_bytes(s.take(k + 1)).len() as int),
+{
+    lemma_parts_prefix(s, k);
+    lemma_parts_is_prefix(s, k);
+    lemma_parts_is_prefix(s, k + 1);
+    let a = parts_bytes(s.take(k)); let a1 = parts_bytes(s.take(k + 1)); let b = parts_bytes(s);
+    assert(a1 == a + s[k].bytes());
+    assert(a1 == b.take(a1.len() as int));
+    assert(s[k].bytes() =~= a1.subrange(a.len() as int, a1.len() as int));
+    assert(a1.subrange(a.len() as int, a1.len() as int) =~= b.subrange(a.len() as int, a1.len() as int));
+}
+impl PrinterLogMessage {
+    /// printer invariant for colour output: color_spec_last mirrors the colour active on the stream
+    pub open spec fn col_ok(&self) -> bool { cid(self.color_spec_last) == self.stdout_color.cur() }
+    pub open spec fn same_colors(&self, o: &Self) -> bool {
+        cid(self.color_spec_default) == cid(o.color_spec_default) && cid(self.color_spec_sysline) == cid(o.color_spec_sysline)
+        && cid(self.color_spec_datetime) == cid(o.color_spec_datetime)
+    }
+}
+
+//@macrofn path=src/printer/printers.rs name=print_color_line_highlight_dt may_return=1 rlimit=400
+//@params self:mut:PrinterLogMessage buffer:alias:self.buffer linep:val:&LineP dt_beg:val:LineIndex dt_end:val:LineIndex printed:mut:usize flushed:mut:usize
+//@desugar_for 1 it
+//@spec
+    requires
+        old(self_).col_ok(), old(self_).buffer@.len() == 0,
+        dt_beg <= dt_end,
+        forall|i: int| 0 <= i < linep.lineparts@.len() ==> (#[trigger] linep.lineparts@[i]).bytes().len() > 0,
+        *old(printed) + parts_bytes(linep.lineparts@).len() <= usize::MAX,
+        *old(flushed) + linep.lineparts@.len() * 15 + 2 < usize::MAX,
+    ensures
+        final(self_).same_config(old(self_)), final(self_).same_colors(old(self_)),
+        *final(flushed) <= *old(flushed) + linep.lineparts@.len() * 15, *final(flushed) >= *old(flushed),
+        r is Ok ==> final(self_).col_ok() && final(self_).buffer@.len() == 0,
+        // C13 / C12: payload = the line's bytes; the datetime range, and only it, is highlighted -- whatever the part boundaries
+        r is Ok ==> final(self_).stdout_color.cview() == old(self_).stdout_color.cview()
+            + paint_hl(parts_bytes(linep.lineparts@), dt_beg as int, dt_end as int, cid(old(self_).color_spec_sysline), cid(old(self_).color_spec_datetime)),
+        r is Ok ==> *final(printed) == *old(printed) + parts_bytes(linep.lineparts@).len(),
+//@at_entry
+    proof { lemma_paint_concat_auto(); }
+    let ghost cv0 = self_.stdout_color.cview();
+    let ghost v0 = self_.stdout_color.view();
+    let ghost bb = parts_bytes(linep.lineparts@);
+    let ghost c_sys = cid(self_.color_spec_sysline);
+    let ghost c_dt = cid(self_.color_spec_datetime);
+    let ghost hl = paint_hl(bb, dt_beg as int, dt_end as int, c_sys, c_dt);
+    let ghost p0 = *printed;
+    let ghost f0 = *flushed;
+    let ghost self0 = *self_;
+//@loop 1
+        invariant_except_break
+            vstd::std_specs::iter::IteratorSpec::decrease(&it.iter) is Some,
+        invariant
+            it.snapshot@ == it__snap0, it.wf(),
+            it.seq().len() == linep.lineparts@.len(),
+            forall|i: int| 0 <= i < linep.lineparts@.len() ==> *it.seq()[i] == linep.lineparts@[i],
+            forall|i: int| 0 <= i < linep.lineparts@.len() ==> (#[trigger] linep.lineparts@[i]).bytes().len() > 0,
+            0 <= it.index@ <= it.seq().len(),
+            self_.same_config(&self0), self_.same_colors(&self0), self0 == *old(self_), f0 == *old(flushed),
+            c_sys == cid(self_.color_spec_sysline), c_dt == cid(self_.color_spec_datetime),
+            bb == parts_bytes(linep.lineparts@), hl == paint_hl(bb, dt_beg as int, dt_end as int, c_sys, c_dt), dt_beg <= dt_end,
+            p0 + bb.len() <= usize::MAX, f0 + linep.lineparts@.len() * 15 + 2 < usize::MAX,
+            self_.col_ok(), self_.buffer@.len() == 0,
+            at as int == parts_bytes(linep.lineparts@.take(it.index@ as int)).len(), at as int <= bb.len(),
+            self_.stdout_color.cview() == cv0 + hl.take(at as int),
+            *printed == p0 + at, at as int <= bb.len(),
+            f0 <= *flushed <= f0 + it.index@ * 15,
+        ensures
+            it.index@ == it.seq().len(),
+        decreases vstd::std_specs::iter::IteratorSpec::decrease(&it.iter).unwrap_or(arbitrary()),
+//@after "let slice: &[u8]"
+            let ghost at_end_g = at as int + slice@.len();
+            proof {
+                let k = it__old.index@ as int;
+                lemma_part_is_subrange(linep.lineparts@, k);
+                assert(slice@ == linep.lineparts@[k].bytes());
+                assert(at_end_g <= bb.len());
+                assert(slice@ == bb.subrange(at as int, at_end_g));
+            }
+//@before "match setcolor_or_return__fn(" 1
+                    proof { lemma_streams_empty(&self_.stdout_color, self_.buffer@); }
+//@after "match buffer_flush_or_return__fn(" 1
+                    proof {
+                        lemma_streams_empty(&self_.stdout_color, self_.buffer@);
+                        assert(slice_a@ =~= bb.subrange(at as int, dt_beg as int));
+                        lemma_hl_piece(cv0, v0, bb, at as int, dt_beg as int, c_sys, dt_beg as int, dt_end as int, c_sys, c_dt);
+                        assert(self_.stdout_color.cview() == cv0 + hl.take(dt_beg as int));
+                        assert(*printed == p0 + dt_beg as int);
+                    }
+//@before "match setcolor_or_return__fn(" 2
+                    proof { lemma_streams_empty(&self_.stdout_color, self_.buffer@); }
+//@after "match buffer_flush_or_return__fn(" 2
+                    proof {
+                        lemma_streams_empty(&self_.stdout_color, self_.buffer@);
+                        assert(slice_b_dt@ =~= bb.subrange(dt_beg as int, dt_end as int));
+                        lemma_hl_piece(cv0, v0, bb, dt_beg as int, dt_end as int, c_dt, dt_beg as int, dt_end as int, c_sys, c_dt);
+                        assert(self_.stdout_color.cview() == cv0 + hl.take(dt_end as int));
+                        assert(*printed == p0 + dt_end as int);
+                    }
+//@before "match setcolor_or_return__fn(" 3
+                    proof { lemma_streams_empty(&self_.stdout_color, self_.buffer@); }
+//@after "match buffer_flush_or_return__fn(" 3
+                    proof {
+                        lemma_streams_empty(&self_.stdout_color, self_.buffer@);
+                        assert(slice_c@ =~= bb.subrange(dt_end as int, at_end_g));
+                        lemma_hl_piece(cv0, v0, bb, dt_end as int, at_end_g, c_sys, dt_beg as int, dt_end as int, c_sys, c_dt);
+                        assert(self_.stdout_color.cview() == cv0 + hl.take(at_end_g));
+                        assert(*printed == p0 + at_end_g);
+                    }
+//@before "match setcolor_or_return__fn(" 4
+                    proof { lemma_streams_empty(&self_.stdout_color, self_.buffer@); }
+//@after "match buffer_flush_or_return__fn(" 4
+                    proof {
+                        lemma_streams_empty(&self_.stdout_color, self_.buffer@);
+                        assert(slice_a@ =~= bb.subrange(at as int, dt_beg as int));
+                        lemma_hl_piece(cv0, v0, bb, at as int, dt_beg as int, c_sys, dt_beg as int, dt_end as int, c_sys, c_dt);
+                        assert(self_.stdout_color.cview() == cv0 + hl.take(dt_beg as int));
+                        assert(*printed == p0 + dt_beg as int);
+                    }
+//@before "match setcolor_or_return__fn(" 5
+                    proof { lemma_streams_empty(&self_.stdout_color, self_.buffer@); }
+//@after "match buffer_flush_or_return__fn(" 5
+                    proof {
+                        lemma_streams_empty(&self_.stdout_color, self_.buffer@);
+                        assert(slice_b_dt@ =~= bb.subrange(dt_beg as int, at_end_g));
+                        lemma_hl_piece(cv0, v0, bb, dt_beg as int, at_end_g, c_dt, dt_beg as int, dt_end as int, c_sys, c_dt);
+                        assert(self_.stdout_color.cview() == cv0 + hl.take(at_end_g));
+                        assert(*printed == p0 + at_end_g);
+                    }
+//@before "match setcolor_or_return__fn(" 6
+                    proof { lemma_streams_empty(&self_.stdout_color, self_.buffer@); }
+//@after "match buffer_flush_or_return__fn(" 6
+                    proof {
+                        lemma_streams_empty(&self_.stdout_color, self_.buffer@);
+                        assert(slice_a_dt@ =~= bb.subrange(at as int, dt_end as int));
+                        lemma_hl_piece(cv0, v0, bb, at as int, dt_end as int, c_dt, dt_beg as int, dt_end as int, c_sys, c_dt);
+                        assert(self_.stdout_color.cview() == cv0 + hl.take(dt_end as int));
+                        assert(*printed == p0 + dt_end as int);
+                    }
+//@before "match setcolor_or_return__fn(" 7
+                    proof { lemma_streams_empty(&self_.stdout_color, self_.buffer@); }
+//@after "match buffer_flush_or_return__fn(" 7
+                    proof {
+                        lemma_streams_empty(&self_.stdout_color, self_.buffer@);
+                        assert(slice_b@ =~= bb.subrange(dt_end as int, at_end_g));
+                        lemma_hl_piece(cv0, v0, bb, dt_end as int, at_end_g, c_sys, dt_beg as int, dt_end as int, c_sys, c_dt);
+                        assert(self_.stdout_color.cview() == cv0 + hl.take(at_end_g));
+                        assert(*printed == p0 + at_end_g);
+                    }
+//@before "match setcolor_or_return__fn(" 8
+                    proof { lemma_streams_empty(&self_.stdout_color, self_.buffer@); }
+//@after "match buffer_flush_or_return__fn(" 8
+                    proof {
+                        lemma_streams_empty(&self_.stdout_color, self_.buffer@);
+                        assert(slice@ =~= bb.subrange(at as int, at_end_g));
+                        lemma_hl_piece(cv0, v0, bb, at as int, at_end_g, c_dt, dt_beg as int, dt_end as int, c_sys, c_dt);
+                        assert(self_.stdout_color.cview() == cv0 + hl.take(at_end_g));
+                        assert(*printed == p0 + at_end_g);
+                    }
+//@before "match setcolor_or_return__fn(" 9
+                    proof { lemma_streams_empty(&self_.stdout_color, self_.buffer@); }
+//@after "match buffer_flush_or_return__fn(" 9
+                    proof {
+                        lemma_streams_empty(&self_.stdout_color, self_.buffer@);
+                        assert(slice@ =~= bb.subrange(at as int, at_end_g));
+                        lemma_hl_piece(cv0, v0, bb, at as int, at_end_g, c_sys, dt_beg as int, dt_end as int, c_sys, c_dt);
+                        assert(self_.stdout_color.cview() == cv0 + hl.take(at_end_g));
+                        assert(*printed == p0 + at_end_g);
+                    }
+//@before "let mut it = vstd"
+    proof { lemma_hl_whole(cv0, v0, bb, dt_beg as int, dt_end as int, c_sys, c_dt); assert(linep.lineparts@.take(0) =~= Seq::<LinePart>::empty()); }
+//@before_tail
+    proof {
+        assert(linep.lineparts@.take(linep.lineparts@.len() as int) =~= linep.lineparts@);
+        lemma_hl_whole(cv0, v0, bb, dt_beg as int, dt_end as int, c_sys, c_dt);
+    }
+//@mutate "at_end <= (dt_end)" "at_end < (dt_end)"
 //@end
 
 /// D(m): the datetime field text for a message whose datetime is `dt`, under the printer's format and zone (opaque: chrono)
@@ -277,6 +680,7 @@ impl PrinterLogMessage {
             decreases vstd::std_specs::iter::IteratorSpec::decrease(&it.iter).unwrap_or(arbitrary()),
 //@after "let slice: &[u8]"
             proof {
+                reveal(vs); reveal(ls);
                 let k = it__old.index@ as int;
                 lemma_parts_prefix(linep.lineparts@, k);
                 assert(slice@ == linep.lineparts@[k].bytes());
@@ -286,6 +690,8 @@ impl PrinterLogMessage {
             }
 //@before_tail
         proof { assert(linep.lineparts@.take(linep.lineparts@.len() as int) =~= linep.lineparts@); }
+//@at_entry
+    proof { reveal(vs); reveal(ls); }
 //@end
 
     /// C13: per-line prefix of a text message = [file-name field] ++ [datetime field], in that order
@@ -325,6 +731,7 @@ impl PrinterLogMessage {
             decreases vstd::std_specs::iter::IteratorSpec::decrease(&it.iter).unwrap_or(arbitrary()),
 //@after "let mut it = vstd"
             proof {
+                reveal(vs); reveal(ls);
                 let k = it__old.index@ as int;
                 lemma_lines_prefix(self.sys_prefix(syslinep, false, false), syslinep.lines@, k);
                 lemma_total_nonneg(syslinep.lines@.take(k));
@@ -349,6 +756,8 @@ impl PrinterLogMessage {
         // C13 / C02: exactly the payload was written -- per line: file-name field, datetime field, line bytes -- nothing else
         assert(stdout_lock.view() == lines_payload(self.sys_prefix(syslinep, false, false), syslinep.lines@) && printed == stdout_lock.view().len() && self.buffer@.len() == 0);
 //@mutate "printed += p;" "printed += 0;"
+//@at_entry
+    proof { reveal(vs); reveal(ls); }
 //@end
 
 //@cut fn path=src/printer/printers.rs impl=PrinterLogMessage name=print_sysline_prependdate ret=r
@@ -383,6 +792,7 @@ impl PrinterLogMessage {
             decreases vstd::std_specs::iter::IteratorSpec::decrease(&it.iter).unwrap_or(arbitrary()),
 //@after "let mut it = vstd"
             proof {
+                reveal(vs); reveal(ls);
                 let k = it__old.index@ as int;
                 lemma_lines_prefix(self.sys_prefix(syslinep, false, true), syslinep.lines@, k);
                 lemma_total_nonneg(syslinep.lines@.take(k));
@@ -406,6 +816,8 @@ impl PrinterLogMessage {
 //@before_tail
         // C13 / C02: exactly the payload was written -- per line: file-name field, datetime field, line bytes -- nothing else
         assert(stdout_lock.view() == lines_payload(self.sys_prefix(syslinep, false, true), syslinep.lines@) && printed == stdout_lock.view().len() && self.buffer@.len() == 0);
+//@at_entry
+    proof { reveal(vs); reveal(ls); }
 //@end
 
 //@cut fn path=src/printer/printers.rs impl=PrinterLogMessage name=print_sysline_prependfile ret=r
@@ -440,6 +852,7 @@ impl PrinterLogMessage {
             decreases vstd::std_specs::iter::IteratorSpec::decrease(&it.iter).unwrap_or(arbitrary()),
 //@after "let mut it = vstd"
             proof {
+                reveal(vs); reveal(ls);
                 let k = it__old.index@ as int;
                 lemma_lines_prefix(self.sys_prefix(syslinep, true, false), syslinep.lines@, k);
                 lemma_total_nonneg(syslinep.lines@.take(k));
@@ -463,6 +876,8 @@ impl PrinterLogMessage {
 //@before_tail
         // C13 / C02: exactly the payload was written -- per line: file-name field, datetime field, line bytes -- nothing else
         assert(stdout_lock.view() == lines_payload(self.sys_prefix(syslinep, true, false), syslinep.lines@) && printed == stdout_lock.view().len() && self.buffer@.len() == 0);
+//@at_entry
+    proof { reveal(vs); reveal(ls); }
 //@end
 
 //@cut fn path=src/printer/printers.rs impl=PrinterLogMessage name=print_sysline_prependfile_prependdate ret=r
@@ -498,6 +913,7 @@ impl PrinterLogMessage {
             decreases vstd::std_specs::iter::IteratorSpec::decrease(&it.iter).unwrap_or(arbitrary()),
 //@after "let mut it = vstd"
             proof {
+                reveal(vs); reveal(ls);
                 let k = it__old.index@ as int;
                 lemma_lines_prefix(self.sys_prefix(syslinep, true, true), syslinep.lines@, k);
                 lemma_total_nonneg(syslinep.lines@.take(k));
@@ -528,6 +944,8 @@ impl PrinterLogMessage {
         // C13 / C02: exactly the payload was written -- per line: file-name field, datetime field, line bytes -- nothing else
         assert(stdout_lock.view() == lines_payload(self.sys_prefix(syslinep, true, true), syslinep.lines@) && printed == stdout_lock.view().len() && self.buffer@.len() == 0);
 //@mutate "self.prepend_file.as_ref().unwrap().as_bytes(), &mut printed" "dtb, &mut printed"
+//@at_entry
+    proof { reveal(vs); reveal(ls); }
 //@end
 
     /// C13: payload of one accounting record = [file-name field] ++ [datetime field] ++ record text, in that order
@@ -552,6 +970,8 @@ impl PrinterLogMessage {
 //@before_tail
         // C13 / C02: exactly the payload was written, nothing else; every byte written was counted
         assert(stdout_lock.view() == self.fx_payload(fixedstruct, buffer@.len() as int, false, false) && printed == stdout_lock.view().len() && self.buffer@.len() == 0);
+//@at_entry
+    proof { reveal(vs); reveal(ls); }
 //@end
 
 //@cut fn path=src/printer/printers.rs impl=PrinterLogMessage name=print_fixedstruct_prependdate ret=r
@@ -566,6 +986,8 @@ impl PrinterLogMessage {
         r is Ok ==> r->Ok_0.0 as int == old(self).fx_payload(fixedstruct, old(buffer)@.len() as int, false, true).len(),
 //@before_tail
         assert(stdout_lock.view() == self.fx_payload(fixedstruct, buffer@.len() as int, false, true) && printed == stdout_lock.view().len() && self.buffer@.len() == 0);
+//@at_entry
+    proof { reveal(vs); reveal(ls); }
 //@end
 
 //@cut fn path=src/printer/printers.rs impl=PrinterLogMessage name=print_fixedstruct_prependfile ret=r
@@ -580,6 +1002,8 @@ impl PrinterLogMessage {
         r is Ok ==> r->Ok_0.0 as int == old(self).fx_payload(fixedstruct, old(buffer)@.len() as int, true, false).len(),
 //@before_tail
         assert(stdout_lock.view() == self.fx_payload(fixedstruct, buffer@.len() as int, true, false) && printed == stdout_lock.view().len() && self.buffer@.len() == 0);
+//@at_entry
+    proof { reveal(vs); reveal(ls); }
 //@end
 
 //@cut fn path=src/printer/printers.rs impl=PrinterLogMessage name=print_fixedstruct_prependfile_prependdate ret=r
@@ -597,6 +1021,8 @@ impl PrinterLogMessage {
         // C13: the file-name field comes before the datetime field, as for every other kind of message
         assert(stdout_lock.view() == self.fx_payload(fixedstruct, buffer@.len() as int, true, true) && printed == stdout_lock.view().len() && self.buffer@.len() == 0);
 //@mutate "&mut self.buffer, prepend_file," "&mut self.buffer, dtb,"
+//@at_entry
+    proof { reveal(vs); reveal(ls); }
 //@end
 
     /// configuration invariant established by PrinterLogMessage::new (do_prepend_* mirror the option values)
